@@ -16,7 +16,7 @@ HARNESSES = {
     "extractor_matches_statement_3rules": {"crate": "okane", "inject": ["cli_extract"], "bound": "3 rules x <= 2 OR-elements x <= 2 AND-fields", "timeout": 3600},
     "clip_complete": {"crate": "okane-core", "inject": ["core_parse_adaptor", "core_tracked_ctor"], "bound": "none (loop-free, full usize domain)", "complete": True, "timeout": 600},
     "resolve_is_clip": {"crate": "okane-core", "inject": ["core_parse_adaptor", "core_tracked_ctor"], "bound": "none (loop-free, full usize domain)", "complete": True, "timeout": 600},
-    "parsed_context_line_and_slice": {"crate": "okane-core", "inject": ["core_parse_adaptor", "core_tracked_ctor"], "bound": "ASCII text <= 6 bytes; every span", "timeout": 900},
+    "parsed_context_line_and_slice": {"crate": "okane-core", "inject": ["core_parse_adaptor", "core_tracked_ctor"], "bound": "text <= 4 characters over {LF, CR, space, a, 3-byte char}; every span on character boundaries", "timeout": 900},
     "get_column_complete": {"crate": "okane-core", "inject": ["core_display"], "bound": "none (loop-free, full usize domain)", "complete": True, "timeout": 600},
     "to_double_entry_signs": {"crate": "okane", "inject": ["cli_single_entry"], "bound": "one record: amounts from the sign classes {+,-} x two magnitudes (scale 2); optional transferred amount / balance / dest account; no charges, no rates", "timeout": 2400},
     "display_roundtrip_bounded": {"crate": "okane-core", "inject": ["core_pretty_decimal"], "bound": "i16 mantissa, scale <= 2, Plain and Comma3Dot", "timeout": 1800},
